@@ -352,6 +352,161 @@ theorem gain_profile_normalised_partial (freqs dgt ripple pin : List ℝ) (eff g
   · simp only [hb, if_false]
     exact ⟨_, rfl⟩
 
+/-! ### average gain of the returned profile: the two cases where it is exact -/
+
+private theorem sumL_zip_replicate (f : ℝ → ℝ) (p : ℝ) (l : List ℝ) :
+    sumL (((List.replicate l.length p).zip l).map (fun q => q.1 * f q.2)) = p * sumL (l.map f) := by
+  induction l with
+  | nil => simp [sumL]
+  | cons x xs ih =>
+    simp only [List.length_cons, List.replicate_succ, List.zip_cons_cons, List.map_cons, sumL, ih]
+    ring
+
+private theorem sumL_map_db2lin_sub (l : List ℝ) (v : ℝ) :
+    sumL (l.map (fun x => db2lin (x - v))) = sumL (l.map db2lin) / db2lin v := by
+  have : l.map (fun x => db2lin (x - v)) = (l.map db2lin).map (fun y => y * (db2lin v)⁻¹) := by
+    simp [List.map_map, Function.comp, db2lin_sub, div_eq_mul_inv]
+  rw [this, sumL_map_mul_right, div_eq_mul_inv]
+
+private theorem sumL_map_db2lin_pos (l : List ℝ) (hne : l ≠ []) : 0 < sumL (l.map db2lin) := by
+  apply sumL_pos _ (by simpa using hne)
+  intro x hx
+  simp only [List.mem_map] at hx
+  obtain ⟨y, _, rfl⟩ := hx
+  exact db2lin_pos y
+
+/-- **uniform input, flat branch** (gain excursion ≤ 0.05 dB: no tilt, ripple-free or nearly): the profile the
+code returns raises the total power by EXACTLY the effective gain -/
+theorem flat_branch_total_gain (g1 : List ℝ) (p eff : ℝ) (hp : 0 < p) (hne : g1 ≠ []) :
+    avgGain (List.replicate g1.length p) (flatProfile g1 eff)
+      (watt2dbm (sumL (List.replicate g1.length p))) = eff := by
+  have hn : (0:ℝ) < g1.length := by
+    have : 0 < g1.length := List.length_pos_iff.2 hne
+    exact_mod_cast this
+  have hS := sumL_map_db2lin_pos g1 hne
+  have hlen : (flatProfile g1 eff).length = g1.length := by simp [flatProfile]
+  simp only [avgGain]
+  have h1 := sumL_zip_replicate db2lin p (flatProfile g1 eff)
+  rw [hlen] at h1
+  rw [h1]
+  have h2 : sumL ((flatProfile g1 eff).map db2lin) = sumL (g1.map db2lin) / db2lin (voaOf g1 eff) := by
+    simp only [flatProfile, List.map_map]
+    exact sumL_map_db2lin_sub g1 (voaOf g1 eff)
+  rw [h2, sumL_replicate]
+  have hv := db2lin_pos (voaOf g1 eff)
+  simp only [watt2dbm, Nat.cast_ofNat]
+  rw [← lin2db_div _ _ (by positivity) (by positivity)]
+  have : p * (sumL (g1.map db2lin) / db2lin (voaOf g1 eff)) * 1000 / (↑g1.length * p * 1000)
+      = (sumL (g1.map db2lin) / ↑g1.length) / db2lin (voaOf g1 eff) := by
+    field_simp
+  rw [this, lin2db_div _ _ (by positivity) hv, lin2db_db2lin]
+  simp only [voaOf, mean, List.length_map]
+  ring
+
+/-- the same for the whole `_gain_profile`: uniform input power and gain excursion within 0.05 dB -/
+theorem gain_profile_normalised_uniform_flat (freqs dgt ripple : List ℝ) (p eff gfm tilt fmin fmax : ℝ)
+    (hlen : dgt.length ≠ 1) (hp : 0 < p) (hz : ripple.zip dgt ≠ [])
+    (hsmall : ∀ d, |maxL (g1st ripple dgt gfm d) - minL (g1st ripple dgt gfm d)| ≤ 5 / 100) :
+    let n := (ripple.zip dgt).length
+    avgGain (List.replicate n p)
+      (gainProfile freqs dgt ripple (List.replicate n p) eff gfm tilt fmin fmax
+        (watt2dbm (sumL (List.replicate n p)))).1
+      (watt2dbm (sumL (List.replicate n p))) = eff := by
+  intro n
+  simp only [gainProfile, if_neg hlen]
+  generalize (if fitSlope freqs dgt < zero ∨ zero < fitSlope freqs dgt
+    then -tilt / (fmax - fmin) / fitSlope freqs dgt else zero) = d
+  have hb : Transc.abs (maxL (g1st ripple dgt gfm d) - minL (g1st ripple dgt gfm d)) ≤ (c005 : ℝ) := by
+    simpa [c005] using hsmall d
+  simp only [hb, if_true]
+  have hlen1 : (g1st ripple dgt gfm d).length = n := by simp [g1st, n]
+  have hne : g1st ripple dgt gfm d ≠ [] := by
+    intro h; rw [h] at hlen1; simp only [List.length_nil] at hlen1
+    exact hz (List.length_eq_zero_iff.1 hlen1.symm)
+  have := flat_branch_total_gain (g1st ripple dgt gfm d) p eff hp hne
+  rw [hlen1] at this
+  exact this
+
+private theorem shifted_const (g dgt : List ℝ) (voa x d : ℝ) (hd : ∀ y ∈ dgt, y = d) :
+    shifted g dgt voa x = (shifted g dgt voa 0).map (fun s => s + d * x) := by
+  simp only [shifted, List.map_map]
+  apply List.map_congr_left
+  intro q hq
+  have := hd q.2 (List.of_mem_zip hq).2
+  simp only [Function.comp, this]; ring
+
+private theorem sumL_zip_map_add (pin l : List ℝ) (c : ℝ) :
+    sumL ((pin.zip (l.map (fun s => s + c))).map (fun q => q.1 * db2lin q.2))
+      = sumL ((pin.zip l).map (fun q => q.1 * db2lin q.2)) * db2lin c := by
+  induction l generalizing pin with
+  | nil => simp [sumL]
+  | cons x xs ih =>
+    cases pin with
+    | nil => simp [sumL]
+    | cons p ps =>
+      simp only [List.map_cons, List.zip_cons_cons, sumL, ih, db2lin_add]
+      ring
+
+/-- the secant step is exact on an affine average-gain function -/
+theorem secantStep_affine (A : ℝ → ℝ) (a0 d eff xc δ : ℝ) (hA : ∀ x, A x = a0 + d * x) (hd : d ≠ 0) (hδ : δ ≠ 0) :
+    |A (secantStep A eff xc δ) - eff| ≤ 1 / 100000000000 := by
+  have hs1 : (A (xc - δ) - A xc) / (xc - δ - xc) = d := by
+    rw [hA, hA, div_eq_iff (by intro h; apply hδ; linarith)]; ring
+  have hs2 : (A xc - A (xc + δ)) / (xc - (xc + δ)) = d := by
+    rw [hA, hA, div_eq_iff (by intro h; apply hδ; linarith)]; ring
+  simp only [secantStep, hs1, hs2, transc_abs, cTol, Nat.cast_one, Nat.cast_ofNat]
+  split
+  · rename_i h; rw [abs_sub_comm]; exact h
+  · split
+    · rw [hA (xc - (A xc - eff) / d), hA xc]
+      have : a0 + d * (xc - (a0 + d * xc - eff) / d) - eff = 0 := by field_simp; ring
+      rw [this]; norm_num
+    · rw [hA (xc + (-A xc + eff) / d), hA xc]
+      have : a0 + d * (xc + (-(a0 + d * xc) + eff) / d) - eff = 0 := by field_simp; ring
+      rw [this]; norm_num
+
+/-- **constant dynamic gain tilt over the loaded channels, any input spectrum, tilt/ripple branch**: the average
+gain is affine in the DGT scale, the secant step is exact, and the returned profile raises the total power by the
+effective gain within the code's own tolerance `1e-11` dB.  (For a non-constant DGT the average gain is a strictly
+convex log-sum-exp of the scale and one secant step is only approximate: `gain_profile_normalised_partial`.) -/
+theorem gain_profile_normalised_const_dgt (freqs dgt ripple pin : List ℝ) (eff gfm tilt fmin fmax pinDb d : ℝ)
+    (hlen : dgt.length ≠ 1) (hd : ∀ y ∈ dgt, y = d) (hd0 : d ≠ 0) (hpos : ∀ p ∈ pin, 0 < p)
+    (hne : pin.zip (ripple.zip dgt) ≠ [])
+    (hbig : ∀ k, ¬ |maxL (g1st ripple dgt gfm k) - minL (g1st ripple dgt gfm k)| ≤ 5 / 100) :
+    |avgGain pin (gainProfile freqs dgt ripple pin eff gfm tilt fmin fmax pinDb).1 pinDb - eff| ≤ 1 / 100000000000 := by
+  simp only [gainProfile, if_neg hlen]
+  generalize (if fitSlope freqs dgt < zero ∨ zero < fitSlope freqs dgt
+    then -tilt / (fmax - fmin) / fitSlope freqs dgt else zero) = k
+  have hb : ¬ Transc.abs (maxL (g1st ripple dgt gfm k) - minL (g1st ripple dgt gfm k)) ≤ (c005 : ℝ) := by
+    simpa [c005] using hbig k
+  simp only [hb, if_false]
+  set g1 := g1st ripple dgt gfm k with hg1
+  set voa := voaOf g1 eff with hvoa
+  -- the average gain as a function of the DGT scale is affine
+  have hS : 0 < sumL ((pin.zip (shifted g1 dgt voa 0)).map (fun q => q.1 * db2lin q.2)) := by
+    apply sumL_pos
+    · intro h
+      have hl := congrArg List.length h
+      simp only [List.length_map, List.length_zip, shifted, g1, g1st, List.length_nil] at hl
+      apply hne
+      apply List.length_eq_zero_iff.1
+      simp only [List.length_zip]
+      omega
+    · intro x hx
+      simp only [List.mem_map] at hx
+      obtain ⟨q, hq, rfl⟩ := hx
+      exact mul_pos (hpos q.1 (List.of_mem_zip hq).1) (db2lin_pos q.2)
+  have hA : ∀ x, avgGain pin (shifted g1 dgt voa x) pinDb = avgGain pin (shifted g1 dgt voa 0) pinDb + d * x := by
+    intro x
+    simp only [avgGain]
+    rw [shifted_const g1 dgt voa x d hd, sumL_zip_map_add, watt2dbm_mul_db2lin _ _ hS]
+    ring
+  have hδ : maxL g1 - minL g1 ≠ 0 := by
+    intro h0
+    apply hb
+    rw [h0]; simp [c005]; norm_num
+  exact secantStep_affine (fun x => avgGain pin (shifted g1 dgt voa x) pinDb) _ d eff _ _ hA hd0 hδ
+
 /-! ### band filter -/
 
 /-- **out-of-band channels are not amplified**: every channel that is kept lies inside the amplifier band -/
